@@ -50,6 +50,8 @@ func runOne(t *testing.T, prop, tier string, base uint64, index int, tapes *Tape
 	} else {
 		r.W, r.S, r.F, r.A = simrt.NewTape(simrt.SplitMix(seed, 1)), simrt.NewTape(simrt.SplitMix(seed, 2)), simrt.NewTape(simrt.SplitMix(seed, 3)), simrt.NewTape(simrt.SplitMix(seed, 4))
 	}
+	running.Store(true)
+	defer running.Store(false)
 	func() {
 		defer func() {
 			if e := recover(); e != nil {
@@ -96,7 +98,9 @@ func startWatchdog() {
 		for {
 			time.Sleep(time.Second)
 			cur := simrt.GlobalProgress.Load() + progressExtra.Load()
-			if cur == last {
+			if !running.Load() {
+				stuck = 0
+			} else if cur == last {
 				stuck++
 			} else {
 				stuck = 0
